@@ -1,6 +1,7 @@
 """C01  Formatting preserves program meaning (compile equivalence).
 
-Domain   programs: Hypothesis-generated C programs (gcc -x c -std=gnu11) and C++ translation units (g++ -std=gnu++17) rendered by the
+Domain   programs: Hypothesis-generated C programs (gcc -x c -std=gnu11), C++ translation units (g++ -std=gnu++17) and Java classes
+         (javac -g:none; class files compared) rendered by the
          layout engine with comments in trivia slots, plus the corpus files that compile stand-alone (decided at run time; files
          using __LINE__ / __FILE__ / __COUNTER__ / assert are left out because their object code legitimately depends on layout).
          configurations: (i) every option of the classes whitespace / mod_ / cmt_ singly at every enumerated / boundary value
@@ -17,7 +18,7 @@ import random
 import re
 import subprocess
 
-from vf import core, corpus, family, gen_c, gen_cpp, layout, registry, run
+from vf import core, corpus, family, gen_c, gen_cpp, gen_java, layout, registry, run
 
 BUILDS = ('fast',)
 LEVEL = 'translation_validation'
@@ -32,7 +33,23 @@ def _compile_cached(h, lang, src):
     return p.returncode, p.stdout, p.stderr[-400:]
 
 
+@functools.lru_cache(maxsize=32)
+def _javac_cached(h, src):
+    # javac -g:none: no LineNumberTable / SourceFile attributes, so equal class files mean equal programs
+    with run.TempDir() as d:
+        run.write(os.path.join(d, 'A.java'), src)
+        p = subprocess.run(['javac', '-g:none', '-nowarn', '-d', os.path.join(d, 'o'), os.path.join(d, 'A.java')], capture_output=True, timeout=300)
+        out = []
+        if p.returncode == 0:
+            for r_, _ds, fs in os.walk(os.path.join(d, 'o')):
+                for f in sorted(fs):
+                    out.append(f.encode() + b'\0' + run.read(os.path.join(r_, f)))
+        return p.returncode, b'\n'.join(sorted(out)), p.stderr[-400:]
+
+
 def compile_(src, lang):
+    if lang == 'JAVA':
+        return _javac_cached(hashlib.sha256(src).hexdigest(), src)
     return _compile_cached(hashlib.sha256(src).hexdigest(), lang, src)
 
 
@@ -140,6 +157,11 @@ def to_case(v):
     return family.Case(src.encode('utf-8'), lang, cfgd, {'kind': 'generated', 'cfgkind': kind, 'layout_seed': lseed, 'cfg_seed': cseed})
 
 
+def make_strategy_java():
+    from hypothesis import strategies as st
+    return st.tuples(gen_java.java_program(max_snippets=3).map(lambda t: ('JAVA', t)), st.integers(0, 2 ** 32 - 1), st.integers(0, 2 ** 32 - 1))
+
+
 def compilable(item):
     rel, lang = item
     src = corpus.read(rel)
@@ -162,7 +184,7 @@ def main(ctx):
                 'the output bytes differ from the input and the program has >= 30 tokens; distinct by sha256(source, language, config)')
     ctx.assumptions = ['gcc/g++ -w -O1 -S from stdin emits no line information, so equal assembly text means equal object code',
                        'generated programs avoid constructs whose meaning depends on layout (__LINE__, assert, multi-token stringification)',
-                       'Objective-C and Java are not compiled in this revision (C02-C04 cover them lexically)']
+                       'Objective-C is not compiled in this revision (C02-C04 cover it lexically); Java is compiled for generated programs only']
     core.replay_regress(ctx, replay)
     # compilable corpus subset
     cand = [f for f in corpus.files() if f[1] in ('C', 'CPP')]
@@ -200,6 +222,7 @@ def main(ctx):
     cases.sort(key=lambda c: (c.origin.get('file', ''), ))
     raw = family.explore(ctx, judge, cases, batch=8)
     raw += family.hyp_explore(ctx, judge, make_strategy, to_case, shards=16, examples=(250 if quick else 6000))
+    raw += family.hyp_explore(ctx, judge, make_strategy_java, to_case, shards=16, examples=(6 if quick else 150))
     family.triage(ctx, judge, raw, minimise_src=3000, per_cluster=1)
     ctx.extra['programs'] = ctx.evaluations
     ctx.extra['disagreements_checked'] = ctx.counts.get('raw_failures', 0)
